@@ -29,7 +29,7 @@ class Stream:
 
     def __init__(self, ctx, profile='free', str_classes=('look', 'uni'),
                  styles=None, finite=False, mutants=3, soup=1, empties=True,
-                 share=0.0, cycles=0.3):
+                 share=0.0, cycles=0.3, aliases=0.3):
         self.ctx = ctx
         self.rng = ctx.rng
         self.profile = profile
@@ -41,6 +41,7 @@ class Stream:
         self.empties = empties
         self.share = share
         self.cycles = cycles
+        self.aliases = aliases
 
     def new_model(self):
         spec = G.gen_model(self.rng, self.profile)
@@ -96,6 +97,15 @@ class Stream:
                 texts.append(text)
                 yield text, {'origin': 'mutant', 'what': '+'.join(what),
                              'style': style, 'spec': msp}
+            if self.aliases and rng.random() < self.aliases:
+                asp, n = D.share_equal_subnodes(sp, rng, 0.8)
+                if n:
+                    try:
+                        yield D.render(asp, rng.choice(
+                            ['block', 'flow', 'json', 'dq'])), {
+                                'origin': 'aliased', 'spec': None}
+                    except (ValueError, RecursionError):
+                        pass
             if self.cycles and rng.random() < self.cycles:
                 csp = D.make_cycle(sp, rng)
                 if csp is not None:
